@@ -179,6 +179,22 @@ fn labels_for(st: &mut Stats, c: &SrcCase, root: &SyntaxNode, out: &str) {
     });
     st.label(&format!("tab:{}", c.cfg.tab));
     st.label_if(c.cfg.reorder, "reorder:on");
+    if c.cfg.blank != 2 {
+        st.label(&format!("blank-bound:{}", if c.cfg.blank > 9 { "huge".to_string() } else { c.cfg.blank.to_string() }));
+        // does the bound matter for this text? (a run of blank lines longer than the bound, or -- for a
+        // bound above the default -- longer than the default)
+        let mut run = 0usize;
+        let mut longest = 0usize;
+        for line in c.src.split('\n') {
+            if line.trim().is_empty() {
+                run += 1;
+                longest = longest.max(run);
+            } else {
+                run = 0;
+            }
+        }
+        st.label_if(longest > c.cfg.blank.min(2), "blank-bound:differs-from-default-and-input-has-longer-run");
+    }
     st.label_if(syn::max_depth(root) > 12, "tree-depth>12");
 }
 
@@ -260,7 +276,7 @@ impl Prop for SrcProp {
         let it = &env.corpus.items[item];
         let mut c = SrcCase {
             src: it.text.clone(),
-            cfg: Cfg { width, tab, reorder },
+            cfg: Cfg { width, tab, reorder, blank: 2 },
             range: None,
             origin: if it.whole { "G0f".into() } else { "G0s".into() },
         };
@@ -476,9 +492,15 @@ impl Prop for SrcProp {
 
     fn reduce(&self, c: &SrcCase, _env: &Env, fails: &mut dyn FnMut(&SrcCase) -> bool) -> SrcCase {
         let mut best = c.clone();
+        if best.cfg.blank != 2 {
+            let cand = SrcCase { cfg: Cfg { blank: 2, ..best.cfg.clone() }, ..best.clone() };
+            if fails(&cand) {
+                best = cand;
+            }
+        }
         // config first (cheap): canonical values
         for (w, t) in [(80, 2), (120, 2), (40, 2), (20, 2), (0, 2), (c.cfg.width, 2), (80, c.cfg.tab)] {
-            let cand = SrcCase { cfg: Cfg { width: w, tab: t, reorder: best.cfg.reorder }, ..best.clone() };
+            let cand = SrcCase { cfg: Cfg { width: w, tab: t, reorder: best.cfg.reorder, blank: best.cfg.blank }, ..best.clone() };
             if fails(&cand) {
                 best = cand;
                 break;
@@ -687,7 +709,7 @@ fn check_indent(c: &SrcCase, env: &Env, st: &mut Stats) -> Verdict {
     let units: Vec<usize> = (1..=8).collect();
     let mut outs = vec![];
     for &u in &units {
-        match fmt_or_skip(env, &c.src, &Cfg { width: config::HUGE, tab: u, reorder: false }) {
+        match fmt_or_skip(env, &c.src, &Cfg { width: config::HUGE, tab: u, reorder: false, blank: c.cfg.blank }) {
             Ok(o) => outs.push(o),
             Err(v) => return v,
         }
@@ -702,7 +724,7 @@ fn check_indent(c: &SrcCase, env: &Env, st: &mut Stats) -> Verdict {
     };
     let mut max_levels = levels;
     for u in [3usize, 4, 5, 7, 8] {
-        let out = match fmt_or_skip(env, &c.src, &Cfg { width: c.cfg.width, tab: u, reorder: false }) {
+        let out = match fmt_or_skip(env, &c.src, &Cfg { width: c.cfg.width, tab: u, reorder: false, blank: c.cfg.blank }) {
             Ok(o) => o,
             Err(v) => return v,
         };
